@@ -84,6 +84,14 @@ pub fn driver_a() -> Driver {
         "fn f(x) = x + nonexistent_var",
         "7\nlet w12 = 1/0",
         "unit u2: Length = 3 m\nlet w13 = 1/0",
+        // definition-free failing inputs: expression statements (they set the last result) and
+        // procedure calls before the failure
+        "8\n1/0",
+        "\"leaked\"\nassert(1 == 2)",
+        "a + 1\nf(2)\n1/0",
+        "print(\"p\")\n1/0",
+        "9 m\n1 + (2 m)",
+        "1/0",
     ];
     Driver {
         name: "tiny",
@@ -114,6 +122,9 @@ pub fn driver_b() -> Driver {
         "dimension E\nunit v: E\nlet w8 = 1/0",
         "let a = 1/0",
         "unit smoot2: Length = 1.7 m\nlet w9 = sqrt(-1 m)\nerror(\"stop\")",
+        "8 m\n1/0",
+        "\"leaked\"\nassert(1 == 2)",
+        "3 s\nprint(4)\nerror(\"stop\")",
     ];
     Driver {
         name: "prelude",
